@@ -191,8 +191,8 @@ example : (build ⟨16 + 4096, 1 + 256, 1, 0, 1000⟩ [.qr sampleG none]).sig = 
 /-! ### the RFC reading of the hints against what the library does (translator T4)
 
   `Generated.hintProbes` is regenerated on every run: a query/response with EVERY member set, a malformed message and an
-  address event go through the working tree's own exporter and reader under 77 hint configurations (all bits, none, every
-  single bit cleared, every single bit alone); the table says which members came back.  `project` – the function the
+  address event go through the working tree's own exporter and reader under 197 hint configurations (all bits, none, every
+  single bit cleared, every single bit alone, 120 pseudo-random masks); the table says which members came back.  `project` – the function the
   record-level theorems of C01 and the oracle of this property use for "what the hints let through" – must say the same. -/
 
 open CdnsVerif.Model.Builder CdnsVerif.Model.Timestamp in
@@ -230,14 +230,19 @@ def probePresence (qrh sigh rrh odh : Nat) : List Bool :=
    (firstAnswer.bind (·.ttl)).isSome, (firstAnswer.bind (·.rdata)).isSome,
    !(expectedMms h [.mm mm none]).isEmpty, decide (timesBuffered h [.aec ae none] ae > 0)]
 
+/-- the presence report as a number: bit i = the i-th entry -/
+def bitsOf : List Bool → Nat
+  | [] => 0
+  | b :: rest => (if b then 1 else 0) + 2 * bitsOf rest
+
 /-- **What the hints let through in the code is what the RFC reading says** – for every probed configuration (all bits, none,
-    each bit cleared, each bit alone, per mask) the members the working tree's exporter + reader return for a full record are
+    each bit cleared, each bit alone, per mask, 120 pseudo-random masks) the members the working tree's exporter + reader return for a full record are
     exactly those `project` keeps; malformed messages and address events come back exactly when their bit is set. -/
 theorem hint_probes_match_projection :
-    (Generated.hintProbes.all fun r => probePresence r.1 r.2.1 r.2.2.1 r.2.2.2.1 == r.2.2.2.2) = true := by
+    (Generated.hintProbes.all fun r => bitsOf (probePresence r.1 r.2.1 r.2.2.1 r.2.2.2.1) == r.2.2.2.2) = true := by
   decide +kernel
 
 /-- the probe table is not trivial: it holds the all-set, the all-clear and a configuration per bit -/
-theorem hint_probes_cover : 77 ≤ Generated.hintProbes.length := by decide +kernel
+theorem hint_probes_cover : 197 ≤ Generated.hintProbes.length := by decide +kernel
 
 end CdnsVerif.Props.C04
